@@ -491,7 +491,7 @@ Definition Good (an gn : str) (s : idm) : Prop :=
 Lemma thread_step_good an gn s t : Good an gn s -> Good an gn (fst (thread_step s t)).
 Proof.
   intros (r & HR & HI & HO). unfold thread_step.
-  destruct (t_pend t) as [|n g].
+  destruct (t_pend t) as [|n gn0 g].
   - destruct (t_todo t) as [|o rest]; [exists r; auto|].
     assert (Hgen : forall o', Good an gn (fst (idm_step s o'))).
     { intros o'. pose proof (step_refines o' HR HI) as Hs.
@@ -511,6 +511,7 @@ Qed.
 Lemma cstep_good an gn st i : Good an gn (fst st) -> Good an gn (fst (cstep st i)).
 Proof.
   intros H. unfold cstep. destruct (nth_error (snd st) i) as [t|]; auto.
+  destruct (blocked (snd st) t); auto.
   pose proof (thread_step_good t H) as H'. destruct (thread_step (fst st) t). exact H'.
 Qed.
 
